@@ -622,7 +622,9 @@ def check(prop, tier, seed, workers=16, runs=None, wall_cap=None, verbose=True):
             "coverage": {
                 "evaluations": agg["evaluations"],
                 "distinct_nontrivial": len(agg["sigs"]),
-                "rule": spec["rule"],
+                "rule": spec["rule"]
+                + (" NOTE: distinct counting stops at %d entries to bound memory; the numbers are lower bounds." % SIG_CAP
+                   if len(agg["sigs"]) >= SIG_CAP or len(agg["states"]) >= SIG_CAP else ""),
                 "samples": agg["samples"] or [{"note": "no run completed"}],
                 "planned_runs": planned,
                 "completed_runs": completed,
